@@ -274,6 +274,44 @@ func c13Sizes(c *core.Ctx, cfg bandCfg, b band.Band, snap band.VerifSnapshot) {
 			}
 		}
 	}
+	// the same questions in a seeded random order on the same band object (a lookup
+	// that memoises per object may depend on the order of the requests)
+	type q struct {
+		ver, rev string
+		dr       int
+	}
+	var qs []q
+	for _, ver := range c13Versions {
+		for _, rev := range c13Revisions {
+			for dr := 0; dr <= 15; dr++ {
+				qs = append(qs, q{ver, rev, dr})
+			}
+		}
+	}
+	r := c.RNG("size-order", int64(len(cfg.String()))<<8|int64(cfg.String()[0]))
+	for pass := 0; pass < 3; pass++ {
+		perm := r.Perm(len(qs))
+		if pass == 1 { // revision outer, version inner
+			perm = perm[:0]
+			for ri := range c13Revisions {
+				for dr := 0; dr <= 15; dr++ {
+					for vi := range c13Versions {
+						perm = append(perm, (vi*len(c13Revisions)+ri)*16+dr)
+					}
+				}
+			}
+		}
+		for _, pi := range perm {
+			x := qs[pi]
+			ps, err := b.GetMaxPayloadSizeForDataRateIndex(x.ver, x.rev, x.dr)
+			want, ok := modelSize(snap, x.ver, x.rev, x.dr)
+			c.Eval(1)
+			if ok != (err == nil) || (ok && ps != want) {
+				c.Violate(fmt.Sprintf("C13|%s|order-dependent-lookup|pass=%d", cfg.Name, pass), "asked in a different order, GetMaxPayloadSizeForDataRateIndex(%s, %s, %d) = %+v err=%v; the table gives %+v ok=%v", x.ver, x.rev, x.dr, ps, err, want, ok)
+				break
+			}
+		}
+	}
 	if c.WantSample("sizes") {
 		ps, _ := b.GetMaxPayloadSizeForDataRateIndex("zz", "zz", 0)
 		c.Sample("sizes", map[string]interface{}{"band": cfg.String(), "version": "zz", "revision": "zz", "dr": 0, "M": ps.M, "N": ps.N})
